@@ -60,6 +60,34 @@ theorem refines_enc_derive (R : RefinesEd ops) (a : ℕ) (ha : a < 2 ^ 260) (B :
   obtain ⟨h, e⟩ := (refines_derive R) a ha B hB
   rw [R.enc _ h, e]
 
+/-- `PrivateKey * &PublicKey` on stored bytes (what the driver evaluates for `c10_derive_raw`): for a decoder `d` into representatives
+that refines a decoder `d'` into the group (the `DecRefines` of Proofs/GroupRefineScan.lean, written out), the SAME bytes / the same
+panic come out on both instances -/
+theorem refines_mulKeyBytes (R : RefinesEd ops) {d : Bytes → Option Ed.Pt} {d' : Bytes → Option EdPoint}
+    (hd : ∀ b, (∀ Q, d b = some Q → ∃ h : Valid Q, d' b = some (toPoint Q h)) ∧ (d b = none → d' b = none))
+    (a : ℕ) (ha : a < 2 ^ 260) (b : Bytes) : mulKeyBytes ops d a b = mulKeyBytes edOps d' a b := by
+  unfold Monero.mulKeyBytes
+  cases hb : d b with
+  | none => rw [(hd b).2 hb]
+  | some Q =>
+    obtain ⟨hQ, e⟩ := (hd b).1 Q hb
+    obtain ⟨h1, e1⟩ := R.smul a ha Q hQ
+    rw [e]; dsimp only; rw [R.enc _ h1, e1]
+
+/-- both byte-level constructors, likewise -/
+theorem refines_deriveBytes (R : RefinesEd ops) {d : Bytes → Option Ed.Pt} {d' : Bytes → Option EdPoint}
+    (hd : ∀ b, (∀ Q, d b = some Q → ∃ h : Valid Q, d' b = some (toPoint Q h)) ∧ (d b = none → d' b = none))
+    (a : ℕ) (ha : a < 2 ^ 260) (b : Bytes) :
+    deriveReceiverBytes ops d a b = deriveReceiverBytes edOps d' a b ∧
+    deriveSenderBytes ops d a b = deriveSenderBytes edOps d' a b := by
+  have h8 : ∀ w, mulKeyBytes ops d (Gen.mulFactor % ops.l) w = mulKeyBytes edOps d' (Gen.mulFactor % edOps.l) w := fun w => by
+    rw [refines_mulKeyBytes R hd _ (refines_mulFactor_lt R) w, R.l]
+  unfold Monero.deriveReceiverBytes Monero.deriveSenderBytes
+  rw [refines_mulKeyBytes R hd a ha b]
+  cases mulKeyBytes edOps d' a b with
+  | none => exact ⟨rfl, rfl⟩
+  | some w => exact ⟨h8 w, h8 w⟩
+
 /-- what the driver prints for `c10_onetime*` -/
 theorem refines_enc_oneTimeKey_derive (R : RefinesEd ops) (a : ℕ) (ha : a < 2 ^ 260) (B S : Ed.Pt) (hB : Valid B)
     (hS : Valid S) (n : ℕ) :
